@@ -404,7 +404,25 @@ def _independence(case, parent, child, ref, idx, idx2, ctx):
                 pname = f'extra{op[2]}'
                 if pname in actor.extra_properties:
                     continue
-                actor.add_extra_property(pname, val)
+                # overwrite=True is also valid for a name that does not
+                # exist yet
+                ow = op[2] % 2 == 1
+                actor.add_extra_property(pname, val, overwrite=ow)
+                if pname not in actor.extra_properties:
+                    raise Violation('extra_property_not_registered',
+                                    f'add_extra_property({pname!r}, ..., '
+                                    f'overwrite={ow}) set the attribute but did '
+                                    f'not list it in extra_properties '
+                                    f'{actor.extra_properties} (a slice would '
+                                    f'lose it)', op=name, who=who)
+                if not actor.isscalar:
+                    sub = actor[0:1]
+                    if not (hasattr(sub, pname) and eq(np.atleast_1d(getattr(sub, pname)),
+                                                      np.atleast_1d(val)[0:1])):
+                        raise Violation('commutation',
+                                        f'extra property {pname} is missing or '
+                                        f'wrong on a slice of the {who}',
+                                        prop=pname)
             elif name == 'rename':
                 if not actor.extra_properties:
                     continue
